@@ -63,13 +63,12 @@ def tabArr (n : Nat) (v : Vec R) : Array R := Array.ofFn (n := n) fun i => v i.v
 def tabRows (m n : Nat) (A : Mat R) : Array (Array R) :=
   Array.ofFn (n := m) fun i => Array.ofFn (n := n) fun j => A i.val j.val
 
-/-- tabulate the first `n` entries once (zero outside); `Props/C06.tabV_apply`.
-    (`@[inline]`: where it is bound by a `let` of a data-returning definition the array is built
-    strictly, once; entries are then array reads.) -/
-@[inline] def tabV (n : Nat) (v : Vec R) : Vec R := ofArr (tabArr n v)
+/-- tabulate the first `n` entries (zero outside); `Props/C06.tabV_apply`.  NB: to be evaluated
+    once, the array must be bound by a `let` *before* `ofArr` is applied (see `cglsIter`). -/
+def tabV (n : Nat) (v : Vec R) : Vec R := ofArr (tabArr n v)
 
-/-- tabulate an `m × n` matrix once (zero outside) -/
-@[inline] def tabM (m n : Nat) (A : Mat R) : Mat R := ofRows (tabRows m n A)
+/-- tabulate an `m × n` matrix (zero outside) -/
+def tabM (m n : Nat) (A : Mat R) : Mat R := ofRows (tabRows m n A)
 
 def toListV (n : Nat) (v : Vec R) : List R := (List.range n).map v
 def toListM (m n : Nat) (A : Mat R) : List (List R) := (List.range m).map fun i => (List.range n).map fun j => A i j
@@ -247,15 +246,20 @@ variable {R : Type} [Zero R] [One R] [Add R] [Sub R] [Mul R] [Div R] [LT R] [LE 
     `gamma ≤ gamma0·tol²` and `normx*tol >= 1` as `‖x‖²·tol² ≥ 1` (equivalent for `tol ≥ 0`).
     `eps` is the machine epsilon substituted for a zero curvature. -/
 def cglsIter (fwd adj : Vec R → Vec R) (N n : Nat) (gamma0 tol2 eps : R) (st : CglsState R) : CglsState R :=
-  let q := tabV N (fwd st.p)
+  let qa := tabArr N (fwd st.p)
+  let q := ofArr qa
   let delta0 := dot N q q
   let delta := if delta0 = 0 then eps else delta0
   let alpha := st.gamma / delta
-  let x := tabV n (fun i => st.x i + alpha * st.p i)
-  let r := tabV N (fun i => st.r i - alpha * q i)
-  let s := tabV n (adj r)
+  let xa := tabArr n (fun i => st.x i + alpha * st.p i)
+  let x := ofArr xa
+  let ra := tabArr N (fun i => st.r i - alpha * q i)
+  let r := ofArr ra
+  let sa := tabArr n (adj r)
+  let s := ofArr sa
   let gamma := dot n s s
-  let p := tabV n (fun i => s i + (gamma / st.gamma) * st.p i)
+  let pa := tabArr n (fun i => s i + (gamma / st.gamma) * st.p i)
+  let p := ofArr pa
   let normx2 := dot n x x
   let xmax2 := if st.xmax2 < normx2 then normx2 else st.xmax2
   let flag := decide (gamma ≤ gamma0 * tol2) || decide (1 ≤ normx2 * tol2)
@@ -263,9 +267,12 @@ def cglsIter (fwd adj : Vec R → Vec R) (N n : Nat) (gamma0 tol2 eps : R) (st :
 
 /-- the state before the loop -/
 def cglsInit (fwd adj : Vec R → Vec R) (N n : Nat) (b x0 : Vec R) : CglsState R :=
-  let x := tabV n x0
-  let r := tabV N (fun i => b i - fwd x i)
-  let s := tabV n (adj r)
+  let xa := tabArr n x0
+  let x := ofArr xa
+  let ra := tabArr N (fun i => b i - fwd x i)
+  let r := ofArr ra
+  let sa := tabArr n (adj r)
+  let s := ofArr sa
   let gamma := dot n s s
   let normx2 := dot n x x
   { x := x, r := r, s := s, p := s, gamma := gamma, normx2 := normx2, xmax2 := normx2, k := 0, flag := false }
